@@ -703,6 +703,12 @@ def drive_L(case, rng_mod):
 
 # ------------------------------------------------------------------ request-level stream (R)
 NODES_R = 'ABC'
+AMP_BAND_R = (191.3e12, 196.1e12)       # inside the band of every amplifier model of tests/data/eqpt_config.json
+
+
+def inside_band(c, band):
+    """the whole slot of the carrier lies inside the band"""
+    return c['f'] - c['slot'] / 2 >= band[0] and c['f'] + c['slot'] / 2 <= band[1]
 
 
 def gen_case_R(rng):
@@ -753,6 +759,12 @@ def gen_case_R(rng):
                 for _ in range(rng.randint(1, 4)):
                     carriers.append({'f': fcur + 25e9, 'slot': 50e9, 'baud': 32e9, 'delta': rng.choice([0, 1, -2, 3]), 'pdbm': 0})
                     fcur += 50e9
+            # carriers outside the band are the point, but not all of them: at least one lies inside the amplifiers' band
+            while not any(inside_band(c, AMP_BAND_R) for c in carriers):
+                sw = 50e9
+                fcur = max(fcur, AMP_BAND_R[0]) + sw / 2
+                carriers.append({'f': fcur, 'slot': sw, 'baud': 32e9, 'delta': rng.choice([0, 1.5, -2.5]), 'pdbm': 0})
+                fcur += sw / 2
             rng.shuffle(carriers)                                   # a dict: any insertion order
             reqs[-1]['spectrum'] = carriers
     return {'kind': 'R', 'roadms': roadms, 'eq_policy': {POL[eqk]: gen_policy_value(rng, POL[eqk], zero_ok=0.0)},
@@ -850,6 +862,9 @@ def drive_R(case):
             designed_network(eq, net)
         from gnpy.topology.spectrum_assignment import build_oms_list
         build_oms_list(net, eq)
+        # the band common to the amplifiers of the designed network (configuration data of the amplifier models)
+        amps = [n for n in net.nodes() if isinstance(n, elements.Edfa)]
+        obs['amp_band'] = [max(float(a.params.f_min) for a in amps), min(float(a.params.f_max) for a in amps)]
         rqs = json_io.requests_from_json(requests_R(case), eq)
         from gnpy.core.info import Carrier
         for r, req in zip(case['requests'], rqs):
@@ -1347,9 +1362,15 @@ def run(ctx):
             obs = drive_R(c)
             ctx.count('R_cases')
             if obs['stage']:
+                empty = [r['id'] for r in c['requests'] if r.get('spectrum') and obs.get('amp_band')
+                         and not any(inside_band(x, obs['amp_band']) for x in r['spectrum'])]
                 if obs['stage'][1] in ('ServiceError', 'DisjunctionError', 'ConfigurationError', 'EquipmentConfigError',
                                        'NetworkTopologyError', 'ParametersError'):
                     ctx.count('R_rejected_' + obs['stage'][1])         # the request / configuration was refused: nothing to judge
+                elif empty and obs['stage'][1] == 'ValueError' and 'does not match amplifiers band' in obs['stage'][2]:
+                    # decided from the supplied carriers and the amplifiers' band: a user spectrum without any carrier inside
+                    # the band leaves nothing to propagate; the property says nothing about an empty comb
+                    ctx.count('user_spectrum_empty_after_filtering_not_judged')
                 else:
                     ctx.violation('request_flow_crash', f"{obs['stage'][1]}: {obs['stage'][2]}", pub)
                 ctx.case(pub, False)
